@@ -104,6 +104,19 @@ UNIT = Unit(
                "ensures __rf0 is None ==> forall|j: int| 0 <= j < self.0@.len() ==> (#[trigger] self.0@[j]).0.0@ != key.0@,\n"
                "  __rf0 matches Some(id) ==> (__rk0 < self.0@.len() && self.0@[__rk0 as int].0.0@ == key.0@ && self.0@[__rk0 as int].1 == id),\n"
                "decreases __rk0,")),
+        Fn(file=N, name="resolve_expr", container=NR, as_method_of=NR, rename="resolve_ident_use", ret="r",
+           cut_from="let name_str = &ident.0;", cut_before="@block-end", cut_tail="",
+           sig=f"pub fn resolve_ident_use(&mut self, ident: &ast::AstIdent, astptr: &ast::MySyntaxNodePtr, {ARGS}",
+           rewrites=[(re.compile(r"Some\(&(def_id|builtin_id)\) = ctx\.(def_names|builtin_names)\.get\("), r"Some(\1) = ctx.\2.get_copied(", 2), VC,
+                     ("ctx.builtin_names.get_copied(name_str)", "ctx.builtin_names.get_copied(name_str)")],
+           obligation="a use of a name that has a binder in scope resolves to the LAST (innermost, most recent) binder of that name; without a "
+                      "binder it is never a local; the environment is not changed by a use",
+           contract="""ensures final(env).0@ == old(env).0@,
+            final(hir_table).expr_of(r) matches hir::Expr::ENameRef { res, .. } && (
+                ((exists|k: int| 0 <= k < old(env).0@.len() && (#[trigger] old(env).0@[k]).0.0@ == ident.0@) ==>
+                    (res matches hir::NameRef::Local(id) && exists|k: int| 0 <= k < old(env).0@.len() && (#[trigger] old(env).0@[k]).0.0@ == ident.0@ && old(env).0@[k].1 == id
+                        && forall|j: int| k < j < old(env).0@.len() ==> (#[trigger] old(env).0@[j]).0.0@ != ident.0@))
+                && ((forall|j: int| 0 <= j < old(env).0@.len() ==> (#[trigger] old(env).0@[j]).0.0@ != ident.0@) ==> !(res is Local))),"""),
         arm("resolve_block", "ast::Expr::EBlock { exprs, astptr } => {", "exprs: &Vec<ast::Expr>, astptr: &ast::MySyntaxNodePtr",
             SAME, seq_loop("leaks"), obligation="a block is a scope: the environment after it is the environment before it"),
         arm("resolve_match", "ast::Expr::EMatch { expr, arms, astptr } => {", "expr: &Box<ast::Expr>, arms: &Vec<ast::Arm>, astptr: &ast::MySyntaxNodePtr",
